@@ -498,10 +498,23 @@ def fam_coarse(thorough=False):
     out = []
     # windows start on a coarse boundary (counted from the grid start, so both anchorings agree); they end at the horizon end, on a
     # coarse boundary inside the horizon, or in the middle of a coarse step (the last coarse step is then shorter)
-    wins = [(4, (1, None)), (4, (3, None)), (6, (1, 4)), (6, (3, 6))] + ([(6, (1, 5)), (6, (1, 6)), (5, (1, None))] if thorough else [])
+    # ... and windows reaching beyond the horizon: the asset starts one step BEFORE the horizon (its first coarse step is cut by the horizon
+    # start), ends after the horizon (the last coarse step is cut by the horizon end), or both
+    wins = [(4, (1, None)), (4, (3, None)), (6, (1, 4)), (6, (3, 6)), (5, (0, None)), (5, (1, 8)), (4, (0, 7))] + ([(6, (1, 5)), (6, (1, 6)), (5, (1, None)), (5, (-2, 9))] if thorough else [])
     for T, win in wins:
-        group = [(s - 1) // 2 + 1 for s in range(1, T + 1)]       # coarse step of 2 fine steps, anchored at the grid start
+        a0 = min(win[0], 1)
+        group = [(s - a0) // 2 + 1 for s in range(1, T + 1)]       # coarse step of 2 fine steps, anchored at the asset's start (= the grid start unless it starts earlier)
         for name, assets in _kinds_c13(T, dict(group=group, freq='2h'), win):
+            if a0 < 1:
+                # groups anchored one step earlier pair other steps: odd prices keep every mean of two merged prices integral
+                for a in assets:
+                    if a['kind'] in ('contract', 'multi'):
+                        a['price'] = [2 * p - 1 for p in a['price']]
+                    # take periods stay aligned with the (shifted) coarse steps; what a period cutting a coarse step means is not documented
+                    for tk in a.get('takes', []):
+                        if any(a['group']):
+                            tk['s'] = a0 - 1
+                            tk['e'] = tk['e'] - 1 if (tk['e'] - tk['s']) % 2 else tk['e']
             out.append(F.make_cfg(ids(), T, assets, variant=name, option='coarse'))
     return out
 
